@@ -63,7 +63,11 @@ def gen_unit(ctx, ty):
             v = 'type=bind,' + rnd.choice(['source', 'src']) + '=' + rnd.choice(['/srv/', './']) + rnd.choice(['', 'my data']) + rnd.choice(NASTY).replace(',', '') + rnd.choice(['', ' x']) + ',dst=/m'
         if k == 'ServiceName' and ('/' in v or rnd.random() < 0.6):
             continue
-        if rnd.random() < 0.12:
+        if rnd.random() < 0.08:
+            # a backslash as the last character of the value (white space other than blanks after it is trimmed, no continuation): a
+            # unit that is accepted with it must not let it continue a line of the *generated* file
+            lines.append(f'{k}={v}\\' + rnd.choice(['\t', '\r', '\x0c', '\xa0', '\t \t']))
+        elif rnd.random() < 0.12:
             # the assignment continues over physical lines: with comment, blank and blanks-only lines after the backslash
             lines.append(f'{k}={v} \\\n' + rnd.choice(['', '\n', '   \n', '#c\n', ';c\n', '\t\n#c\n']) + rnd.choice(['tail', 'Label=forged=yes', 'KillMode=process', '[Service]']))
         else:
